@@ -72,7 +72,7 @@ def enc_specs(specs):
 # ------------------------------------------------------------------ generation
 
 def rand_rows(rng):
-    return rng.choice([0, 1, 1, 2, 2, 3, 3, 4, 4, 5, 6])
+    return rng.choice([0, 1, 2, 2, 3, 3, 4, 4, 5, 5, 6, 6])
 
 
 def rand_pool(rng):
@@ -84,7 +84,7 @@ def rand_pool(rng):
     if r < 0.5:    # infinities next to finite numbers and NaN
         return rng.sample([INF, -INF, 1, 2.5, NAN, None], rng.choice([2, 3, 4]))
     if r < 0.9:    # mixed types, few values -> many duplicates, many-to-many matches
-        return rng.sample(KEYS, rng.choice([1, 2, 3, 4]))
+        return rng.sample(KEYS, rng.choice([1, 1, 2, 2, 3]))
     return list(KEYS)
 
 
@@ -194,11 +194,44 @@ def small_tables():
     return out
 
 
+EXTRA = {}
+
+
+def _shape(l):
+    """(some operand has a duplicated key, the call has a many-to-many match) for a keyed case - distribution evidence"""
+    sx = proto.parse(l)
+    if sx[4] == 'N' or any(not isinstance(s, str) for s in sx[4][1:]) or len(sx[4]) < 2:
+        return None
+    def keys(t, specs):
+        cols = {unhex(kv[0]): kv[1][1:] for kv in t[1:]}
+        names = [proto.dec_cell(a) for a in specs[1:]]
+        if any(k not in cols for k in names):
+            return None
+        return list(zip(*[[proto.canon_cell(a) for a in cols[k]] for k in names]))
+    rs = sx[5] if sx[5] != 'N' else sx[4]
+    if any(not isinstance(s, str) for s in rs[1:]):
+        return None
+    lk, rk = keys(sx[2], sx[4]), keys(sx[3], rs)
+    if lk is None or rk is None:
+        return None
+    cl, cr = Counter(lk), Counter(rk)
+    dup = any(v > 1 for v in cl.values()) or any(v > 1 for v in cr.values())
+    m2m = any(cl[k] > 1 and cr.get(k, 0) > 1 for k in cl)
+    return dup, m2m
+
+
 def generate(rng, tier):
     n = 1500 if tier == 'quick' else 40000
+    keyed = dup = m2m = 0
     for _ in range(n):
         tag, l = gen_case(rng)
+        sh = _shape(l)
+        if sh is not None:
+            keyed += 1
+            dup += sh[0]
+            m2m += sh[1]
         yield dict(tag=tag, lines=[l])
+    EXTRA.update(keyed_calls=keyed, with_duplicate_keys=dup, with_many_to_many_match=m2m)
     if tier != 'quick':
         ts = small_tables()
         for x in ts:
